@@ -58,6 +58,15 @@ def main(argv):
         msg = toyforms.CHECKS[spec['prop']](o)
         print('native run of the toy program on the real Solver:', msg or 'the statement holds on this tree')
         return 1 if msg else 0
+    if kind == 'mirror':
+        from . import toyforms
+        sc = spec['scenario']
+        o = toyforms.mirror_run(sc['amounts'], sc['reader_first'], sc['provided_in_file'])
+        ps = o.get('problems') or []
+        if spec['prop'] == 'C12':
+            ps = [p for p in ps if 'declared as' in p]
+        print('native run of the input-only toy forms on the real Solver:', ps[0] if ps else 'the statement holds on this tree')
+        return 1 if ps else 0
     if kind == 'session':
         from . import session
         sc = spec['scenario']
